@@ -118,7 +118,7 @@ func serverConfigFor(t trial) *eio.ServerConfig {
 	// the heartbeat travels in-band: on a loaded machine a PONG can sit behind seconds of backlog of the
 	// full-speed patterns; a generous ping timeout keeps that from being mistaken for a fault of the swap
 	ut := time.Second
-	if t.Fault == "none" || t.Fault == "slow" {
+	if t.Fault == "none" || t.Fault == "slow" || t.Fault == "pollstall" {
 		// an upgrade that is expected to succeed: on a loaded machine the server's 1 s upgrade timeout can
 		// expire while the client completes the very same upgrade, which tears the connection legitimately
 		ut = 10 * time.Second
@@ -196,6 +196,16 @@ func runTrial(run *vk.Run, t trial) (out outcome) {
 				c.SetDelay(20 * time.Millisecond)
 				c.SetStall(false)
 			}()
+		case "pollstall":
+			// the poll that is pending during the probe (and everything else on the polling connections) is held
+			// for 2.5 s, i.e. beyond the client's upgrade timeout of 1 s, while the websocket answers at once: the
+			// client's wait for its last poll outlasts the timer of the attempt (seeded C07-H)
+			for _, o := range px.Conns() {
+				if o != c && !o.IsWS() {
+					o.SetStall(true)
+					go func(o *proxy.Conn) { time.Sleep(2500 * time.Millisecond); o.SetStall(false) }(o)
+				}
+			}
 		case "refuse":
 			c.Close()
 		case "stall":
@@ -270,6 +280,9 @@ func runTrial(run *vk.Run, t trial) (out outcome) {
 
 	// the upgrade attempt is over when: UpgradeDone fired, or the ws connection is gone / timed out
 	attemptOver := func() bool {
+		if t.Fault == "pollstall" {
+			return false // decided by time below: traffic continues until the held poll has been released
+		}
 		if upgradeDone.Load() {
 			return true
 		}
@@ -295,6 +308,9 @@ func runTrial(run *vk.Run, t trial) (out outcome) {
 		}
 		if t.Fault == "late" {
 			return time.Since(start) > 2500*time.Millisecond
+		}
+		if t.Fault == "pollstall" {
+			return time.Since(start) > 3500*time.Millisecond
 		}
 		return time.Since(start) > 4*time.Second
 	}
@@ -520,7 +536,7 @@ func runTrial(run *vk.Run, t trial) (out outcome) {
 		run.Count("through_swap_trials", 1)
 		cliSide.mu.Unlock()
 	}
-	if run.DistinctCount() < 14 {
+	if run.DistinctCount() < 14 || os.Getenv("C07_DEBUG") != "" {
 		run.Sample(map[string]any{"trial": t.id(), "sent_c2s": cliSide.sent.Load(), "sent_s2c": srvSide.sent.Load(), "upgrade_done": out.upgradeDone, "server_closes": sc, "client_closes": cc})
 	}
 	return
@@ -528,7 +544,7 @@ func runTrial(run *vk.Run, t trial) (out outcome) {
 
 func main() {
 	run := vk.Start("C07", "fault_enumeration")
-	run.Rule("trials = traffic pattern {full speed, jitter, bursts released when the websocket connection appears} x upgrade fault {none, slowed (traffic flows through the swap), held back and slowed so that the server's first PING is queued on polling when the UPGRADE packet arrives (lead swept 70..130 ms; the trial watches until one ping timeout after that PING was due), refused, stalled (timeouts 1 s), late (held for 1.3 s, i.e. past both upgrade timeouts, then delivered), " +
+	run.Rule("trials = traffic pattern {full speed, jitter, bursts released when the websocket connection appears} x upgrade fault {none, slowed (traffic flows through the swap), held back and slowed so that the server's first PING is queued on polling when the UPGRADE packet arrives (lead swept 70..130 ms; the trial watches until one ping timeout after that PING was due), refused, stalled (timeouts 1 s), late (held for 1.3 s, i.e. past both upgrade timeouts, then delivered), pollstall (the polling connections held for 2.5 s from the moment the websocket appears: the wait for the last poll outlasts the client's 1 s upgrade timeout), " +
 		"cut at every 8th byte of the websocket byte stream in each direction}; numbered text and binary messages (every 97th one 33..113 KB) in both directions from before the attempt until after it; " +
 		"distinct = (pattern, fault, client swapped?, connection alive/died). WebTransport part: the same traffic and oracle over polling -> WebTransport upgrades of the Go client against the real server over QUIC on loopback UDP through a datagram relay {clean, 3 ms per datagram, black hole (attempt fails, polling continues), black hole followed by a websocket attempt, dark after the k-th datagram for k over the QUIC handshake, CONNECT, OPEN, probe and UPGRADE}; after a successful swap a second numbered round and fence")
 	run.Assume("order across the swap is not demanded (C02 covers settled transports)", "a cut after the client swapped legitimately kills the connection: then only at-most-once and close-once are required",
@@ -551,6 +567,9 @@ func main() {
 				}
 				if f == "slow" && p == "jitter" && (rep == 0 || run.Thorough()) {
 					trials = append(trials, trial{Pattern: p, Fault: "late"})
+				}
+				if f == "slow" && (rep == 0 || run.Thorough()) {
+					trials = append(trials, trial{Pattern: p, Fault: "pollstall"})
 				}
 				if f == "slow" && p == "jitter" {
 					for lead := int64(70); lead <= 130; lead += 10 {
@@ -581,6 +600,15 @@ func main() {
 	if os.Getenv("C07_ONLY") == "wt" {
 		trials = nil
 	}
+	if f := strings.TrimPrefix(os.Getenv("C07_ONLY"), "fault:"); f != os.Getenv("C07_ONLY") {
+		var keep []trial
+		for _, t := range trials {
+			if t.Fault == f {
+				keep = append(keep, t)
+			}
+		}
+		trials = keep
+	}
 	sem := make(chan struct{}, 10)
 	var wg sync.WaitGroup
 	for _, t := range trials {
@@ -593,7 +621,7 @@ func main() {
 		}(t)
 	}
 	wg.Wait()
-	if os.Getenv("C07_ONLY") != "ws" {
+	if o := os.Getenv("C07_ONLY"); o != "ws" && !strings.HasPrefix(o, "fault:") {
 		wtTrials(run)
 	}
 	if bin := os.Getenv("VERIF_RACE_BIN"); bin != "" && run.Thorough() && run.SubMode == "" {
